@@ -43,9 +43,10 @@ class Cfg:
         return self.reach(starts, blocked_nodes, blocked_edges)
 
     def must_pass(self, src, dst, through, blocked_edges=()):
-        """every path src ->* dst passes a block in `through` (src itself is not counted)"""
+        """every path src ->* dst passes a block in `through` (src itself counts when it is in `through`)"""
         if isinstance(dst, int): dst = [dst]
-        r = self.reach(src, blocked_nodes=set(through) - {src}, blocked_edges=blocked_edges)
+        if src in set(through): return True
+        r = self.reach(src, blocked_nodes=set(through), blocked_edges=blocked_edges)
         return not any(d in r for d in dst)
 
     def edge_dominates(self, edge, node):
